@@ -858,8 +858,9 @@ class SimSelector(selectors._BaseSelectorImpl):  # type: ignore[name-defined,mis
         self.max_hold = 2
         self.calls = 0
         self.max_calls = 400_000
-        # coincidence bias (DESIGN §2.3 item 4): called as align(timeout) right before this selector really blocks
-        # (nothing ready); `timeout` is what the caller passed in (loop: distance to its next timer; None = forever).
+        # coincidence bias (DESIGN §2.3 item 4): called as align(remaining) every time this selector is about to really
+        # block (nothing ready); `remaining` = what is left of the caller's timeout (loop: distance to its next timer;
+        # None = forever).
         # The hook may re-time pending world events (see vsim.harness.AlignedFeed); it must not touch the selector.
         self.align: Callable[[float | None], None] | None = None
 
@@ -901,11 +902,11 @@ class SimSelector(selectors._BaseSelectorImpl):  # type: ignore[name-defined,mis
                 w.zero_wait()
         elif not ready and not woken:
             w.positive_wait()
-            if self.align is not None:
-                self.align(timeout)
             remaining = timeout
             while True:
                 before = w.now
+                if self.align is not None:
+                    self.align(remaining)  # about to block for `remaining` (None = forever)
                 if not w.advance(remaining):
                     w.fail(Deadlock(f"select() with no timeout, nothing ready, no pending event at t={w.now}"))
                 ready = self._ready_now()
